@@ -154,17 +154,24 @@ package gorums
 //@   ghost ntarget Int = 0
 //@   ghost pnMsg Iface = nilI()
 //@   ghost pnPend Bool = false
+//@   ghost ncalled Int = 0
+//@   ghost ranAll Bool = false
+//@   ensures[C06.a] ranAll
 //@   loop "for _, n := range c"
+//@     exit set ranAll = true
 //@     invariant[C06.d] pnPend ==> !validMsg(pnMsg)
 //@     invariant[C02.b] expectedReplies - (len(c) - idx) == ntarget && 0 <= ntarget && ntarget <= idx
 //@     invariant cap(replyChan) == len(c) && replyChan != nil && !closed(replyChan)
 //@     invariant[C09.a] ChCredit[replyChan] == len(c) - ntarget
 //@     invariant md != nil && ctx == old(ctx)
+//@     invariant[C06.a] old(d.PerNodeArgFn) == nil ==> ntarget == idx
+//@     invariant[C06.b] old(d.PerNodeArgFn) != nil ==> ncalled == idx
 //@   on call "d.PerNodeArgFn"
 //@     assert[C06.b] arg0 == old(d.Message) && arg1 == c[idx-1].id
 //@     after assume res0 != nil
 //@     after set pnMsg = res0
 //@     after set pnPend = true
+//@     after set ncalled = ncalled + 1
 //@   on call "n.channel.enqueue"
 //@     assert[C06.a] old(d.PerNodeArgFn) == nil ==> arg0.msg.Message == old(d.Message)
 //@     assert[C06.b] old(d.PerNodeArgFn) != nil ==> arg0.msg.Message == pnMsg
@@ -229,17 +236,24 @@ package gorums
 //@   ghost pnMsg Iface = nilI()
 //@   ghost pnPend Bool = false
 //@   ghost spawned Int = 0
+//@   ghost ncalled Int = 0
+//@   ghost ranAll Bool = false
+//@   ensures[C06.a] ranAll
 //@   loop "for _, n := range c"
+//@     exit set ranAll = true
 //@     invariant[C06.d] pnPend ==> !validMsg(pnMsg)
 //@     invariant[C02.b] expectedReplies - (len(c) - idx) == ntarget && 0 <= ntarget && ntarget <= idx
 //@     invariant cap(replyChan) == len(c) && replyChan != nil && !closed(replyChan)
 //@     invariant[C09.a] ChCredit[replyChan] == len(c) - ntarget
 //@     invariant md != nil && ctx == old(ctx) && spawned == 0
+//@     invariant[C06.a] old(d.PerNodeArgFn) == nil ==> ntarget == idx
+//@     invariant[C06.b] old(d.PerNodeArgFn) != nil ==> ncalled == idx
 //@   on call "d.PerNodeArgFn"
 //@     assert[C06.b] arg0 == old(d.Message) && arg1 == c[idx-1].id
 //@     after assume res0 != nil
 //@     after set pnMsg = res0
 //@     after set pnPend = true
+//@     after set ncalled = ncalled + 1
 //@   on call "n.channel.enqueue"
 //@     assert[C06.a] old(d.PerNodeArgFn) == nil ==> arg0.msg.Message == old(d.Message)
 //@     assert[C06.b] old(d.PerNodeArgFn) != nil ==> arg0.msg.Message == pnMsg
@@ -442,17 +456,24 @@ package gorums
 //@   ghost pnMsg Iface = nilI()
 //@   ghost pnPend Bool = false
 //@   ghost spawned Int = 0
+//@   ghost ncalled Int = 0
+//@   ghost ranAll Bool = false
+//@   ensures[C06.a] ranAll
 //@   loop "for _, n := range c"
+//@     exit set ranAll = true
 //@     invariant[C06.d] pnPend ==> !validMsg(pnMsg)
 //@     invariant expectedReplies - (len(c) - idx) == ntarget && 0 <= ntarget && ntarget <= idx
 //@     invariant cap(replyChan) == len(c) && replyChan != nil && !closed(replyChan)
 //@     invariant[C09.a] ChCredit[replyChan] == len(c) - ntarget
 //@     invariant md != nil && ctx == old(ctx) && spawned == 0
+//@     invariant[C06.a] old(d.PerNodeArgFn) == nil ==> ntarget == idx
+//@     invariant[C06.b] old(d.PerNodeArgFn) != nil ==> ncalled == idx
 //@   on call "d.PerNodeArgFn"
 //@     assert[C06.b] arg0 == old(d.Message) && arg1 == c[idx-1].id
 //@     after assume res0 != nil
 //@     after set pnMsg = res0
 //@     after set pnPend = true
+//@     after set ncalled = ncalled + 1
 //@   on call "n.channel.enqueue"
 //@     assert[C06.a] old(d.PerNodeArgFn) == nil ==> arg0.msg.Message == old(d.Message)
 //@     assert[C06.b] old(d.PerNodeArgFn) != nil ==> arg0.msg.Message == pnMsg
@@ -640,6 +661,12 @@ package gorums
 //@ monitor channel.mu guards lastError latency props C09 C15
 //@ monitor channel.streamMut guards gorumsClient gorumsStream streamCtx cancelStream allows SendMsg NodeStream cancelStream props C09 C15
 
+// C18 (closed world): per-call state of the client lives in channel.responseRouters and nowhere else -
+// no other map or slice field of the long-lived objects receives elements, in any function of the
+// package (the pool and the lookup map grow per node, in AddNode).
+//@ struct channel growing responseRouters props C18
+//@ struct RawNode growing props C18
+//@ struct RawManager growing nodes lookup props C18
 //@ field channel.responseRouters guarded_by responseMut props C05 C15 C18
 //@ field channel.lastError guarded_by mu props C15
 //@ field channel.latency guarded_by mu props C15
@@ -841,16 +868,23 @@ package gorums
 //@   ghost sent0 Int = 0
 //@   ghost gaveUp Bool = false
 //@   ghost nsent Int = 0
+//@   ghost ncalled Int = 0
+//@   ghost ranAll Bool = false
+//@   ensures[C06.a] ranAll
 //@   loop "for _, n := range c"
+//@     exit set ranAll = true
 //@     invariant[C06.d] pnPend ==> !validMsg(pnMsg)
 //@     invariant[C06.c] 0 <= sentMsgs && sentMsgs <= idx && md != nil && ctx == old(ctx) && nwait == 0 && nsent == sentMsgs && !gaveUp
 //@     invariant !o.noSendWaiting ==> replyChan != nil && !closed(replyChan) && cap(replyChan) == len(c) && ChCredit[replyChan] == len(c) - sentMsgs
 //@     invariant o.noSendWaiting ==> replyChan == nil
+//@     invariant[C06.a] old(d.PerNodeArgFn) == nil ==> nsent == idx
+//@     invariant[C06.b] old(d.PerNodeArgFn) != nil ==> ncalled == idx
 //@   on call "d.PerNodeArgFn"
 //@     assert[C06.b] arg0 == old(d.Message) && arg1 == c[idx-1].id
 //@     after assume res0 != nil
 //@     after set pnMsg = res0
 //@     after set pnPend = true
+//@     after set ncalled = ncalled + 1
 //@   on call "n.channel.enqueue"
 //@     assert[C06.a] old(d.PerNodeArgFn) == nil ==> arg0.msg.Message == old(d.Message)
 //@     assert[C06.b] old(d.PerNodeArgFn) != nil ==> arg0.msg.Message == pnMsg
@@ -1054,7 +1088,7 @@ package gorums
 // C05.f: every reply is decoded into a wrapper made for it (a reused wrapper lets the status of one
 // reply leak into the next one of the same node).
 //@ func (*channel).receiver
-//@   props C05 C07 C09 C12 C10 C18 C03
+//@   props C05 C07 C09 C12 C10 C18 C03 C13
 //@   mode concurrent
 //@   requires c != nil && c.node != nil && c.parentCtx != nil && streamDownErr != nil
 //@   ghost cancelled Int = 0
@@ -1449,16 +1483,22 @@ package gorums
 //@   ensures[C14.d] forall(b, forall(k, b != base(m.nodes) ==> elems("*RawNode")[b][k] == old(elems("*RawNode")[b][k])))
 
 //@ func (*RawManager).AddNode
-//@   props C14 C12 C18
+//@   props C14 C12 C18 C15
 //@   nopanic C14
 //@   requires m != nil && node != nil
 //@   ghost dupChecked Bool = false
 //@   ghost dupFound Bool = false
+//@   ghost connected Bool = false
 //@   on call "m.Node"
 //@     after set dupChecked = arg0 == node.id
 //@     after set dupFound = res1
 //@   on call "node.connect"
 //@     assert[C12.e] dupChecked && !dupFound && arg0 == m
+//@     after set connected = true
+//@   on mapupdate "RawManager.lookup"
+//@     assert[C15.g] connected
+//@   on store "RawManager.nodes"
+//@     assert[C15.g] connected
 //@   ensures[C14.f] result == nil ==> !old(in(node.id, m.lookup)) && in(node.id, m.lookup) && m.lookup[node.id] == node
 //@   ensures[C14.f] result == nil ==> forall(id, id != node.id ==> (in(id, m.lookup) <==> old(in(id, m.lookup))) && (in(id, m.lookup) ==> m.lookup[id] == old(m.lookup[id])))
 //@   ensures[C14.f] result == nil ==> len(m.nodes) == old(len(m.nodes)) + 1 && m.nodes[len(m.nodes)-1] == node
@@ -1472,6 +1512,8 @@ package gorums
 //@   ensures[C14.d] forall(b, forall(k, b != old(base(m.nodes)) && wasalloc(b) ==> elems("*RawNode")[b][k] == old(elems("*RawNode")[b][k])))
 //@   ensures[C14.f] forall(n, "*RawNode", wasalloc(n) ==> n.id == old(n.id) && n.addr == old(n.addr))
 
+// C15.g: connect writes the node's mgr and channel fields without a lock; the node becomes visible to
+// other goroutines (lookup map, pool) only afterwards.
 // C12.e / C18.c: a node is connected (channel, goroutines, connection) only after the duplicate check
 // has accepted it - a refused node would keep them and Close never reaches it; dial closes the
 // connection it replaces and stores the one it made.
@@ -1481,7 +1523,7 @@ package gorums
 //@ field RawNode.closed guarded_by connMu props C15 C12
 //@ monitor RawNode.connMu guards closed allows DialContext Close props C15 C12
 //@ func (*RawNode).dial
-//@   props C12 C15 C18
+//@   props C12 C15 C18 C10
 //@   mode concurrent
 //@   requires n != nil
 //@   ghost closedOld Bool = false
